@@ -301,10 +301,9 @@ fn fill_slabs(r: &mut Rng, rt: &SlabRouter, dist: &mut Dist) -> (u64, Vec<ChunkH
             if r.chance(1, 2) { let mut t = TensorData::new(); t.set("w", TensorValue::Scalar(ScalarValue::Int(r.below(9) as i64))); rt.graph.set_edge_data(e, t); }
             edges.push(e);
         }
-        // (merge only before deletions: GraphTensor::merge forgets the deleted set without cleaning the
-        //  incoming index, so a deleted edge reappears in incoming() of the LIVE graph -- not a snapshot matter)
         if r.chance(1, 2) { rt.graph.merge(); }
         if !edges.is_empty() && r.chance(1, 3) { rt.graph.delete_edge(*r.pick(&edges)); dist.hit("slab.edge_delete"); }
+        if r.chance(1, 3) { rt.graph.merge(); dist.hit("slab.merge_after_delete"); }
     }
     let mut chunks = vec![];
     for _ in 0..r.below(4) {
@@ -420,6 +419,11 @@ fn main() {
         match router_roundtrip(&r, fmt, &scratch, "sl") {
             Ok((l, _)) => {
                 let v1 = slabs_view(&l, nodes, &chunks);
+                // taking the snapshot must not change what the live store answers
+                let v0b = slabs_view(&r, nodes, &chunks);
+                if let Some(k) = v0.keys().chain(v0b.keys()).find(|k| v0.get(*k) != v0b.get(*k)) {
+                    hits.push("save-changes-live-store", &format!("slab view {k} of the LIVE store changed by saving it (fmt {fmt}): before {:?} after the save {:?}", v0.get(k), v0b.get(k)), json!({"kind": "slabs", "index": i, "seed": args.seed}));
+                }
                 let diff: Vec<&String> = v0.keys().chain(v1.keys()).filter(|k| v0.get(*k) != v1.get(*k)).collect();
                 slabs.push(&format!("{i}"), &format!("slabs#{i} fmt={fmt} view={v0:?}"), v0.len() > 6);
                 if !diff.is_empty() {
@@ -554,6 +558,70 @@ fn main() {
         let human = format!("crash#{i} path={} fmt={} had_old={had_old} new_len={n} temp={} outcomes(0 err,1 old,2 new,3 other,4 panic)={}", path.file_name().unwrap().to_string_lossy(), match fmt { Fmt::FileZstd => "file+zstd", Fmt::FileRaw => "file", Fmt::Quant => "quantising" }, temp_file.file_name().unwrap().to_string_lossy(), outs.iter().map(|o| format!("{o}")).collect::<String>());
         crash.push(&term, &human, had_old);
         let _ = std::fs::remove_dir_all(&dir);
+    }
+
+    // ---------------------------------------------------------------- entry points: every public save/load pair at TensorStore level,
+    // over stores holding every key class; scan, get AND exists are compared after the load (implementation only)
+    let mut entry = CaseWriter::new(&args.out, "entry");
+    let nentry = args.budget(40, 600);
+    for i in 0..nentry {
+        let src_bloom = i % 2 == 1;
+        let s = if src_bloom { TensorStore::with_default_bloom_filter() } else { TensorStore::new() };
+        // one key of every class first, then random operations
+        for (j, p) in ["emb:", "node:", "edge:", "table:", "_cache:", "", "_blob:meta:", "user:"].iter().enumerate() {
+            let mut d2 = Dist::default();
+            s.put(format!("{p}e{j}"), gen_tdata(&mut rng, 4, *p == "emb:", &mut d2)).unwrap();
+        }
+        for o in gen_ops(&mut rng, 4, 6, &mut dist) {
+            match o { Op::Put(k, t) => { let _ = s.put(k, t); } Op::Delete(k) => { let _ = s.delete(&k); } }
+        }
+        let view = |st: &TensorStore, keys: &[String]| -> Vec<String> {
+            let mut sc = st.scan("");
+            sc.sort_by(|a, bq| a.as_bytes().cmp(bq.as_bytes()));
+            let mut out = vec![format!("scan={sc:?}")];
+            for k in keys { out.push(format!("get({k:?})={} exists={}", st.get(k).ok().map(|t| tdata_coq(&t)).unwrap_or_else(|| "NotFound".into()), st.exists(k))); }
+            out
+        };
+        let mut keys = s.scan("");
+        keys.sort_by(|a, bq| a.as_bytes().cmp(bq.as_bytes()));
+        keys.push("absent:key".to_string());
+        let want = view(&s, &keys);
+        let p = scratch.join("entry.bin");
+        let pairs: Vec<(&str, Box<dyn Fn() -> Result<TensorStore, String>>)> = vec![
+            ("save_snapshot -> load_snapshot", Box::new(|| { s.save_snapshot(&p).map_err(|e| e.to_string())?; TensorStore::load_snapshot(&p).map_err(|e| e.to_string()) })),
+            ("save_snapshot -> load_snapshot_with_bloom_filter", Box::new(|| { s.save_snapshot(&p).map_err(|e| e.to_string())?; TensorStore::load_snapshot_with_bloom_filter(&p, 1000, 0.01).map_err(|e| e.to_string()) })),
+            ("snapshot_bytes -> restore_from_bytes (fresh store)", Box::new(|| { let bs = s.snapshot_bytes().map_err(|e| e.to_string())?; let n = TensorStore::new(); n.restore_from_bytes(&bs).map_err(|e| e.to_string())?; Ok(n) })),
+            ("snapshot_bytes -> restore_from_bytes (fresh store with a Bloom filter)", Box::new(|| { let bs = s.snapshot_bytes().map_err(|e| e.to_string())?; let n = TensorStore::with_default_bloom_filter(); n.restore_from_bytes(&bs).map_err(|e| e.to_string())?; Ok(n) })),
+            ("snapshot_bytes -> restore_from_bytes (same store, after more writes)", Box::new(|| { let bs = s.snapshot_bytes().map_err(|e| e.to_string())?; let n = if src_bloom { TensorStore::with_default_bloom_filter() } else { TensorStore::new() }; n.restore_from_bytes(&bs).map_err(|e| e.to_string())?; let mut t = TensorData::new(); t.set("x", TensorValue::Scalar(ScalarValue::Int(1))); n.put("later:key", t.clone()).unwrap(); n.put("_cache:later", t).unwrap(); for k in n.scan("") { if k.len() % 2 == 0 { let _ = n.delete(&k); } } n.restore_from_bytes(&bs).map_err(|e| e.to_string())?; Ok(n) })),
+        ];
+        for (what, f) in &pairs {
+            dist.hit(&format!("entry.{}", what.split(" (").next().unwrap().replace(' ', "_")));
+            match f() {
+                Ok(l) => {
+                    let got = view(&l, &keys);
+                    if let Some((w, g)) = want.iter().zip(&got).find(|(w, g)| w != g) {
+                        hits.push("entry-point-roundtrip", &format!("{what} (source store {} Bloom filter): original {w}; loaded {g}", if src_bloom { "with" } else { "without" }), json!({"kind": "entry", "index": i, "seed": args.seed, "entry_point": what}));
+                    }
+                }
+                Err(e) => hits.push("entry-point-roundtrip", &format!("{what}: failed: {e}"), json!({"kind": "entry", "index": i})),
+            }
+        }
+        // the quantising pair changes values by design in its known classes: compare scan and exists only
+        {
+            let res = s.save_snapshot_compressed(&p, tensor_compress::CompressionConfig { tensor_mode: None, delta_encoding: true, rle_encoding: true }).map_err(|e| e.to_string()).and_then(|_| TensorStore::load_snapshot_compressed(&p).map_err(|e| e.to_string()));
+            match res {
+                Ok(l) => {
+                    let mut sc = l.scan("");
+                    sc.sort_by(|a, bq| a.as_bytes().cmp(bq.as_bytes()));
+                    let bad = keys.iter().find(|k| l.exists(k) != s.exists(k) || l.get(k).is_ok() != s.get(k).is_ok());
+                    if sc != keys[..keys.len() - 1] || bad.is_some() {
+                        hits.push("entry-point-roundtrip", &format!("save_snapshot_compressed -> load_snapshot_compressed: scan {sc:?} vs {:?}; key answering differently: {bad:?}", &keys[..keys.len() - 1]), json!({"kind": "entry", "index": i, "seed": args.seed}));
+                    }
+                }
+                Err(e) => hits.push("entry-point-roundtrip", &format!("save_snapshot_compressed -> load_snapshot_compressed failed: {e}"), json!({"kind": "entry", "index": i})),
+            }
+        }
+        entry.push(&format!("{i}"), &format!("entry#{i} source_bloom={src_bloom} keys={}", keys.len() - 1), true);
     }
 
     // ---------------------------------------------------------------- observe: a concurrent reader of the path during saves
@@ -774,10 +842,10 @@ fn main() {
         &args.out,
         json!({
             "property": "C07", "seed": args.seed, "tier": args.tier,
-            "kinds": [hdr.summary(), rt.summary(), q.summary(), crash.summary(), observe.summary(), slabs.summary(), big.summary(), tt.summary()],
+            "kinds": [hdr.summary(), rt.summary(), q.summary(), crash.summary(), entry.summary(), observe.summary(), slabs.summary(), big.summary(), tt.summary()],
             "distribution": dist.json(),
             "hits": hits.0,
-            "nontrivial_rule": "rt/q: the store holds at least one key; hdr: entry count > 0; crash: an older snapshot existed at the path; slabs: more than six populated views; big: non-empty; tt: always; observe: the reader polled more often than the writer saved",
+            "nontrivial_rule": "rt/q: the store holds at least one key; hdr: entry count > 0; crash: an older snapshot existed at the path; slabs: more than six populated views; big: non-empty; tt: always; entry: always; observe: the reader polled more often than the writer saved",
         }),
     );
 }
